@@ -265,6 +265,18 @@ def daily(ck, S, DF, RID="C09-O5"):
         ck.ob(RID, sitestr(cd), not (stale or redated_by_clock), "file date follows the record date" if not (stale or redated_by_clock) else
               "a record whose date differs from the file's date can be written without re-dating the file (empty file: %s; size rotation re-dates by the clock: %s): days share a file and the rotated name carries the wrong day" % (stale, redated_by_clock),
               key="rotateIfNeeded|stale-file-date")
+    # the start-up date is the file's modification time: nothing may write to the file between process start and that read
+    wr_names = ("QIODevice::write", "QIODevice::putChar", "QFileDevice::resize", "QFile::resize", "QIODevice::ungetChar", "QFileDevice::setFileTime", "QFile::copy")
+    early = [(S.fs_ctor, n) for n in S.fs_ctor.calls(wr_names)]
+    for fn_ in (it,):
+        mt = [n for n in fn_.calls(("QFileInfo::lastModified", "QFileInfo::fileTime", "QFileInfo::metadataChangeTime"))]
+        for w in fn_.calls(wr_names):
+            if mt and any(S.g(fn_).can_reach(S.g(fn_).site_of(w), S.g(fn_).site_of(m_)) for m_ in mt if S.g(fn_).site_of(w) is not None and S.g(fn_).site_of(m_) is not None):
+                early.append((fn_, w))
+    ck.ob(RID, sitestr(early[0][0], early[0][1]) if early else sitestr(S.fs_ctor), not early,
+          "nothing writes to the log file before its modification time is read at start-up (the sink's constructor only opens it for appending)" if not early else
+          "%s writes to the log file (%s) before init() reads its modification time: the file's old records are then dated with the day of this start, not the day they were written" %
+          (strip_tmpl(early[0][0].name).split("::")[-1], describe(early[0][1])[:40]), key="init|write-before-mtime")
     # init(): start-up date
     g2 = S.g(it)
     fiv = [v for n in it.find(lambda n: n.get("k") == "decl") for v in n.get("vars", []) if "QFileInfo" in (v.get("type") or "")]
